@@ -93,8 +93,8 @@ void print_ws_json(FILE *f)
         fprintf(f, "\"overlong\":%llu,\"ambiguous_eq\":%llu,\"ambiguous_lf\":%llu,\"notfound\":%llu,\"drain_err\":%llu,\"implicit_hits\":%llu,\"test_forms\":%llu,\"list_lines\":%llu,",
                 (unsigned long long)WS.overlong, (unsigned long long)WS.ambiguous_eq, (unsigned long long)WS.ambiguous_lf, (unsigned long long)WS.notfound,
                 (unsigned long long)WS.drain_err, (unsigned long long)WS.implicit_hits, (unsigned long long)WS.test_forms, (unsigned long long)WS.list_lines);
-        fprintf(f, "\"wvar_ok\":%llu,\"wvar_err\":%llu,\"rvar\":%llu,\"flag_flips\":%llu,\"canary_checks\":%llu,", (unsigned long long)WS.wvar_ok,
-                (unsigned long long)WS.wvar_err, (unsigned long long)WS.rvar, (unsigned long long)WS.flag_flips, (unsigned long long)WS.canary_checks);
+        fprintf(f, "\"wvar_ok\":%llu,\"wvar_err\":%llu,\"rvar\":%llu,\"flag_flips\":%llu,\"reinits\":%llu,\"refusal_probes\":%llu,\"refusal_probe_calls\":%llu,\"canary_checks\":%llu,", (unsigned long long)WS.wvar_ok,
+                (unsigned long long)WS.wvar_err, (unsigned long long)WS.rvar, (unsigned long long)WS.flag_flips, (unsigned long long)WS.reinits, (unsigned long long)WS.refusal_probes, (unsigned long long)WS.refusal_probe_calls, (unsigned long long)WS.canary_checks);
         fprintf(f, "\"api_calls\":[");
         for (int i = 0; i < A__KINDS; i++) fprintf(f, "%s%llu", i ? "," : "", (unsigned long long)WS.api_calls[i]);
         fprintf(f, "],\"handler_calls\":[");
@@ -155,12 +155,14 @@ int main(int argc, char **argv)
                 else if (!strcmp(a, "--ev")) events = ARG();
                 else if (!strcmp(a, "--trig-budget")) W.trig_budget = atoi(ARG());
                 else if (!strcmp(a, "--flag-budget")) W.flag_budget = atoi(ARG());
+                else if (!strcmp(a, "--reinit-budget")) W.reinit_budget = atoi(ARG());
                 else if (!strcmp(a, "--act")) {
                         const char *v = ARG();
                         W.act_trigger = strstr(v, "trigger") != NULL;
                         W.act_hold_exit = strstr(v, "hold") != NULL;
                         W.act_queries = strstr(v, "queries") != NULL;
                         W.act_flags = strstr(v, "flags") != NULL;
+                        W.act_reinit = strstr(v, "reinit") != NULL;
                 }
                 else if (!strcmp(a, "--gen-mode")) { const char *v = ARG(); W.gen.mode = !strcmp(v, "free") ? GEN_FREE : !strcmp(v, "none") ? 2 : GEN_GRAMMAR; }
                 else if (!strcmp(a, "--name-alpha")) { memset(W.gen.name_alpha, 0, sizeof W.gen.name_alpha); unescape(ARG(), W.gen.name_alpha, sizeof W.gen.name_alpha - 1); }
@@ -184,6 +186,9 @@ int main(int argc, char **argv)
                 else if (!strcmp(a, "--merge-doomed")) W.merge_doomed = atoi(ARG());
                 else if (!strcmp(a, "--wo-fill")) W.wo_fill = atoi(ARG());
                 else if (!strcmp(a, "--var-init")) W.var_init = atoi(ARG());
+                else if (!strcmp(a, "--str-full")) W.str_full = atoi(ARG());
+                else if (!strcmp(a, "--refusal-probe")) W.refusal_probe = atoi(ARG());
+                else if (!strcmp(a, "--interfere")) W.interfere = atoi(ARG());
                 else if (!strcmp(a, "--max-states")) o.max_states = strtoull(ARG(), NULL, 10);
                 else if (!strcmp(a, "--deadline")) o.deadline_s = atof(ARG());
                 else if (!strcmp(a, "--replay-dir")) o.replay_dir = ARG();
